@@ -96,6 +96,8 @@ class Builder:
             return self.inst.v(t[1])
         if k == "ob":           # ("ob", domkey, index): an object of the world used as a constant
             return self.world[t[1]][t[2]]
+        if k == "lb":           # ("lb", "True"/"False"): a boolean constant (kept apart from 1 / 0 in case keys)
+            return t[1] == "True"
         if k == "ck":
             return getattr(self.term(t[1]), t[2])(*[self.inst.v(a) for a in t[3]], **{n: self.inst.v(a) for n, a in t[4]})
         if k in ("fl", "cc"):
@@ -231,6 +233,8 @@ class Ref:
             return self.inst.v(t[1])
         if k == "ob":
             return self.world[t[1]][t[2]]
+        if k == "lb":
+            return t[1] == "True"
         if k == "ck":
             return getattr(self.value(t[1], env), t[2])(*[self.inst.v(a) for a in t[3]],
                                                         **{n: self.inst.v(a) for n, a in t[4]})
@@ -367,6 +371,8 @@ def up_term(t, inst):
         return repr(inst.v(t[1]))
     if k == "ob":
         return f"{t[1]}[{t[2]}]"
+    if k == "lb":
+        return t[1]
     if k == "ck":
         args = [repr(inst.v(a)) for a in t[3]] + [f"{n}={inst.v(a)!r}" for n, a in t[4]]
         return f"{up_term(t[1], inst)}.{t[2]}({', '.join(args)})"
